@@ -17,6 +17,8 @@ var palette = []string{
 	"\"quoted\"", "\"", "it's", "<tag attr=\"v\">&amp;</tag>", "]]>", "[x]", "a[b]", "a[", "]", "[]",
 	"true", "false", "on", "0", "-1", "+1", "1e5", "NaN", "null", "{}", "~-._", "*", "@:$!'()",
 	"a=b&c=d", "&&", "==", "\\", "\\n", "back\\slash", "\u00a0nbsp", "\u2028ls", "\ufeffbom", "\u0085nel",
+	// a multipart delimiter line for the client's boundary prefix (the client appends 16 random characters)
+	"a\r\n----FiberFormBoundary\r\nb", "\r\n----FiberFormBoundary--\r\n",
 }
 
 var weird = []string{
@@ -139,7 +141,31 @@ func genF64(r *gen.Rand, wild bool) float64 {
 	if r.Chance(1, 3) {
 		return math.Float64frombits(r.U64()&^(0x7ff<<52) | uint64(r.Intn(2046)+1)<<52) // finite, any exponent
 	}
+	if r.Chance(1, 3) {
+		return dyadic(r, 50)
+	}
 	return gen.Pick(r, floats64)
+}
+
+// dyadic draws ±m·2^e with a short mantissa: values whose full decimal expansion is short (integers,
+// halves, quarters, … — the class for which the float round trip is proved without assumption) next
+// to ones whose expansion is long (small negative e with a wide m, large positive e).
+func dyadic(r *gen.Rand, mbits int) float64 {
+	m := float64(r.U64() >> (64 - uint(1+r.Intn(mbits))))
+	e := 0
+	switch r.Intn(4) {
+	case 0:
+		e = -r.Intn(12)
+	case 1:
+		e = -r.Intn(60)
+	case 2:
+		e = r.Intn(30)
+	}
+	v := math.Ldexp(m, e)
+	if r.Bool() {
+		v = -v
+	}
+	return v
 }
 
 func genF32(r *gen.Rand, wild bool) float32 {
@@ -148,6 +174,9 @@ func genF32(r *gen.Rand, wild bool) float32 {
 	}
 	if r.Chance(1, 3) {
 		return math.Float32frombits(uint32(r.U64())&^(0xff<<23) | uint32(r.Intn(254)+1)<<23)
+	}
+	if r.Chance(1, 3) {
+		return float32(dyadic(r, 22))
 	}
 	return gen.Pick(r, floats32)
 }
@@ -272,6 +301,17 @@ func genValue(r *gen.Rand, source string, wild bool) *T {
 	if on() {
 		v.N = genString(r, source, w())
 	}
+	if on() {
+		v.MS = MyStr(genString(r, source, w()))
+	}
+	if on() {
+		for i := sliceLen(r); i > 0; i-- {
+			v.MIS = append(v.MIS, MyI16(genInt(r, 16)))
+		}
+	}
+	if on() {
+		v.MF = MyF32(genF32(r, w()))
+	}
 	return v
 }
 
@@ -325,6 +365,7 @@ func fixValue(v *T, source string) {
 		v.NT[i] = fixString(v.NT[i], source)
 	}
 	v.N = fixString(v.N, source)
+	v.MS = MyStr(fixString(string(v.MS), source))
 	ff := func(f float64) float64 {
 		if math.IsNaN(f) || math.IsInf(f, 0) {
 			return 0
@@ -333,6 +374,7 @@ func fixValue(v *T, source string) {
 	}
 	if source == "json" || source == "xml" || source == "cbor" {
 		v.F32, v.F64 = float32(ff(float64(v.F32))), ff(v.F64)
+		v.MF = MyF32(ff(float64(v.MF)))
 		for i := range v.FS {
 			v.FS[i] = ff(v.FS[i])
 		}
